@@ -1,4 +1,5 @@
 import Moclo.Proofs.Assembly
+import Moclo.Proofs.Names
 import Moclo.Props.C03
 import Moclo.Tables.Enzymes
 import Moclo.Proofs.Flank
@@ -304,6 +305,21 @@ theorem vector_canonical (g : Geom) (c0 c1 : Sym) (o5 y S' p S x o3 b : Word)
     · simpa [List.append_assoc] using h1
     · simpa [List.append_assoc] using h2
 
+/-- **what is ligated does not depend on what the records are called**: the same objects under any other record
+identifiers — all different, all equal (records built in code, exports without an accession, products left at the
+default id) — assemble whenever the original inputs do, to the same sequence, leaving the same modules unused -/
+theorem product_independent_of_record_names {v v' : Ent} {mods mods' : List Ent} {pid pname : Nat} {p : Product}
+    {after : List Rec} (hv : SameButName v v') (hm : List.Forall₂ SameButName mods mods')
+    (h : assemble v mods pid pname = (.ok p, after)) :
+    ∃ p', (assemble v' mods' pid pname).1 = .ok p' ∧ p'.rcd.seq = p.rcd.seq ∧ p'.unused = p.unused :=
+  assemble_names hv hm h
+
+/-- … and they fail together too, with the same error -/
+theorem outcome_independent_of_record_names {v v' : Ent} {mods mods' : List Ent} (pid pname : Nat)
+    (hv : SameButName v v') (hm : List.Forall₂ SameButName mods mods') :
+    OutcomeSame (assemble v mods pid pname).1 (assemble v' mods' pid pname).1 :=
+  assemble_names_outcome pid pname hv hm
+
 /-! non-vacuity: a complete BsaI-like assembly on a toy geometry (site `GA`, off 1, k 2) evaluated by the
 model: vector `N(NN)(N TC N* GA N)(NN)N`, one module, product = module fragment ++ vector fragment -/
 section example_
@@ -317,6 +333,9 @@ def ment : Ent := { oid := 1, spec := { kind := .module, pat := moduleStructure 
 def vent : Ent := { oid := 0, spec := { kind := .vector, pat := vectorStructure g, geom := g }, rcd := vrec }
 example : ((assemble vent [ment] 7 7).1.toOption.map (fun p => p.rcd.seq)) =
     some (wordOf [.A,.C,.A,.A,.A, .C,.A,.C,.C,.C,.C]) := by decide
+-- the same two plasmids, both called 5
+example : ((assemble { vent with rcd := { vrec with rid := 5 } } [{ ment with rcd := { mrec with rid := 5 } }] 7 7).1.toOption.map
+    (fun p => p.rcd.seq)) = some (wordOf [.A,.C,.A,.A,.A, .C,.A,.C,.C,.C,.C]) := by decide
 end example_
 
 end Moclo.C01
